@@ -70,6 +70,9 @@ func (worker *LogProcessingWorker) onInput(buffer []*base.LogRecord) {
 			// TODO: decide whether to release once at the end or release here after per-output transform is implemented
 			// It will depend on whether records are duplicated for additional outputs, or the same record with all transforms run in place.
 			worker.deallocator.Release(record)
+			if len(stream) == 0 {
+				continue // the record could not be serialized (e.g. too large; reported by the serializer): nothing to pack
+			}
 			worker.procCounter.CountStream(i, stream)
 			maybeChunk := output.WriteStream(stream)
 			if maybeChunk != nil {
